@@ -255,3 +255,34 @@ def model_vs_probe(rep, pid, scenario, combos):
         else:
             rep.violation("corr_" + "_".join(str(x) for x in a), {"what": "the runtime model elaborated from the real expansion predicts another outcome than the real runtime shows (model/implementation correspondence broken)",
                                                                     "scenario": a, **detail, "observation": {k: v for k, v in d.items() if k != "log"}}, found=False)
+
+
+def interact_exec_part(rep, pid, rng):
+    """`interact` methods are outside the single-actor premise (their getter / channel-end arguments do not come from the caller), so the
+    runtime checks look at them separately: the dispatch arm must call the user's method with `.await` exactly when the user declared it
+    `async fn` - otherwise the accepted call creates a future and drops it (executed zero times).  Inputs and projection are C14's."""
+    import itertools
+    import hook, C14
+    placements = [k for n in (1, 2, 3) for k in itertools.product("OGE", repeat=n) if k.count("E") <= 1 and ("G" in k or "E" in k)]
+    cases = []
+    for j, kinds in enumerate(placements):
+        for lib in ("tokio", "async_std", "smol") if rep.tier != "quick" else (("tokio", "async_std", "smol")[j % 3],):
+            for asy in (True, False):
+                c = C14.mk_case(rng, kinds, lib, irregular=False, interact=True, ret=False)
+                c["async"] = asy
+                cases.append(c)
+    res = hook.run_parallel([("actor", [C14.attr_of(c), C14.item_of([c])]) for c in cases], tag=pid.lower() + "ix", shards=8)
+    if res is None:
+        raise Infra("interact expansion batch timed out")
+    for i, (c, (cls, f)) in enumerate(zip(cases, res)):
+        rep.evaluations += 1
+        rep.count("interact_async", "%s/%s" % (c["kinds"], "async" if c["async"] else "sync"))
+        rep.nontrivial.add(("interact-exec", c["kinds"], c["async"], c["lib"]))
+        real = C14.real_projection(cls, f[0] if f else "", c)
+        if real["cls"] != "OK" or real.get("awaited") is None:
+            continue
+        if not rep.oblige(real["awaited"] == bool(c["async"])):
+            rep.violation("interact_exec_%d_%s" % (i, c["kinds"]), {
+                "what": "the dispatch arm %s the user's %s method `m`: %s" % ("awaits" if real["awaited"] else "does not await", "async" if c["async"] else "non-async",
+                        "an accepted call creates the method's future and drops it - executed zero times" if c["async"] else "the expansion does not compile"),
+                "attr": C14.attr_of(c), "item": C14.item_of([c]), "lib": c["lib"], "observed": real}, found=True)
